@@ -2,10 +2,12 @@ package props
 
 import (
 	"fmt"
+	"net"
 	"net/http"
 	"net/http/httptest"
 	"sort"
 	"strings"
+	"time"
 
 	"github.com/vicanso/pike/cache"
 	"github.com/vicanso/pike/compress"
@@ -329,6 +331,71 @@ func init() {
 			c.runBFS("bfs-updates", sys, depth, nil)
 			env.FreshAll()
 			procEnv = nil
+		}
+		if c.Thorough() && c.Shard == 0 && c.Want("removed-server-stops-listening") {
+			// real-time observation: elton's graceful close waits up to 10 s
+			st := c.Stat("removed-server-stops-listening", "enumeration")
+			st.Bounds = "every menu transition that removes a server; the removed listener must refuse connections within 15 s while the surviving one keeps accepting"
+			type rem struct {
+				from, to int
+				addr     string
+			}
+			var rems []rem
+			for i, a := range menu {
+				for j, b := range menu {
+					for _, sa := range a.Servers {
+						gone := true
+						for _, sb := range b.Servers {
+							if sb.Addr == sa.Addr {
+								gone = false
+							}
+						}
+						if gone && i != j {
+							rems = append(rems, rem{i, j, sa.Addr})
+						}
+					}
+				}
+			}
+			for _, r := range rems {
+				e := env.New(menu[r.from])
+				srv := server.Get(r.addr)
+				listen := srv.GetListenAddr()
+				if conn, err := net.DialTimeout("tcp", listen, time.Second); err != nil {
+					c.Violation("removed-server-stops-listening", "harness-not-listening-before", err.Error(), nil, nil, nil)
+					e.Close()
+					continue
+				} else {
+					conn.Close()
+				}
+				_ = env.Apply(menu[r.to])
+				st.Execs++
+				closed := false
+				for t0 := time.Now(); time.Since(t0) < 15*time.Second; time.Sleep(250 * time.Millisecond) {
+					conn, err := net.DialTimeout("tcp", listen, 500*time.Millisecond)
+					if err != nil {
+						closed = true
+						break
+					}
+					conn.Close()
+				}
+				if !closed {
+					c.Violation("removed-server-stops-listening", "removed-server-still-listening", fmt.Sprintf("server %s removed by applying config %d over %d still accepts connections on %s after 15 s", r.addr, r.to, r.from, listen), nil, map[string]int{"from": r.from, "to": r.to}, nil)
+				}
+				for _, sb := range menu[r.to].Servers {
+					if s2 := server.Get(sb.Addr); s2 != nil {
+						if conn, err := net.DialTimeout("tcp", s2.GetListenAddr(), time.Second); err != nil {
+							c.Violation("removed-server-stops-listening", "surviving-server-not-listening", fmt.Sprintf("%s: %v", sb.Addr, err), nil, nil, nil)
+						} else {
+							conn.Close()
+						}
+					}
+				}
+				e.Close()
+			}
+			env.FreshAll()
+			procEnv = nil
+			st.States, st.Transitions, st.Nontrivial = st.Execs, st.Execs, st.Execs
+			st.NOutcomes = int(st.Execs)
 		}
 		pre := 2
 		if c.Thorough() {
